@@ -189,7 +189,7 @@ func (f *Frame) doIndexAddr(x *ssa.IndexAddr) {
 		f.oblige("panic", "index", x.Pos(), And(Le(Zero, idx), Lt(idx, SLen(s))))
 		es := f.p.sortOf(xt.Elem())
 		f.enc.declSortOf(es)
-		f.lvs[x] = &LV{kind: lvElem, arr: f.p.sliceArray(xt.Elem()), asort: ArrSort(SInt, ArrSort(SInt, es)), idx: SPtr(s), idx2: Add(SOff(s), idx)}
+		f.lvs[x] = &LV{kind: lvElem, arr: f.p.sliceArray(xt.Elem()), asort: ArrSort(SInt, ArrSort(SInt, es)), idx: SPtr(s), idx2: Add(SOff(s), idx), off: SOff(s), pos: idx}
 		f.setVal(x, App(SInt, "elemaddr", SPtr(s), Add(SOff(s), idx)))
 		f.enc.declFun("elemaddr", []Sort{SInt, SInt}, SInt)
 	case *types.Pointer:
@@ -199,7 +199,7 @@ func (f *Frame) doIndexAddr(x *ssa.IndexAddr) {
 		f.oblige("panic", "index", x.Pos(), And(Le(Zero, idx), Lt(idx, IntLit(at.Len()))))
 		es := f.p.sortOf(at.Elem())
 		f.enc.declSortOf(es)
-		lv := &LV{kind: lvElem, arr: f.p.sliceArray(at.Elem()), asort: ArrSort(SInt, ArrSort(SInt, es)), idx: p, idx2: idx}
+		lv := &LV{kind: lvElem, arr: f.p.sliceArray(at.Elem()), asort: ArrSort(SInt, ArrSort(SInt, es)), idx: p, idx2: idx, off: Zero, pos: idx}
 		if blv, ok := f.lvs[x.X]; ok {
 			lv.fresh = blv.fresh
 		}
@@ -830,6 +830,13 @@ func (f *Frame) mapHas(st State, mt *types.Map, m, k T) T {
 func stOr(e *Enc, st State, name string, sort Sort) T {
 	if t, ok := st[name]; ok {
 		return t
+	}
+	if _, sym := st["__symbolic"]; sym {
+		// symbolic state (global lemmas): state variables are bound variables of the axiom
+		e.stateSort[name] = sort
+		v := T{"|" + name + "!sv|", sort}
+		e.symStateUsed[name] = v
+		return v
 	}
 	e.stateSort[name] = sort
 	return e.declConst(name+"@0", sort)
